@@ -4,6 +4,10 @@ import M3d.Lemmas.ParamEuler
 import M3d.Lemmas.ParamDisc
 import M3d.Lemmas.ParamNear
 import M3d.Lemmas.ParamHist
+import M3d.Lemmas.ParamExt
+import M3d.Lemmas.ParamOutside
+import M3d.Lemmas.ParamQT
+import Mathlib.Analysis.Real.Sqrt
 /-!
 # C18 — Surface parameterisations are valid, disjoint and invertible
 
@@ -263,6 +267,27 @@ example : (joined (1/8 : Rat) ⟨⟨0, 0⟩, ⟨1, 1⟩⟩ (.n4 (.leaf 0) (.leaf
   decide +kernel
 
 
+/-- **Every chart gets exactly one cell of the atlas.**  `PackMeshUVMaps` sorts the charts by decreasing 3-D area
+(`sortDesc`), builds the quad tree (`buildParamQuadTree`: greedy four-way assignment by the smallest total area,
+recursively) and `Joined` hands every leaf its cell.  For charts of positive area the recursion terminates —
+the first four charts go to four different piles, so every pile is strictly smaller than the list; fuel
+`length + 1`, what the driver uses, suffices — and the chart ids of the cells are a permutation of the chart
+ids: no chart is left without a cell and none gets two.  Together with `quadtree_cells_disjoint_in_unit`: the
+charts land in pairwise disjoint rectangles inside the target box.  (Five or more charts of area 0 in one pile
+make the Go recursion run forever: observation (a) of notes/C18.md.) -/
+theorem atlas_every_chart_gets_one_cell (ps : List (Nat × K)) (hp : ∀ p ∈ ps, 0 < p.2) (border : K) (r : Rect K) :
+    ((joined border r (buildQT (ps.length + 1) (sortDesc ps))).map Prod.fst).Perm (ps.map Prod.fst) := by
+  rw [joined_ids]
+  have hperm := sortDesc_perm ps
+  have h := buildQT_ids_perm (ps.length + 1) (sortDesc ps)
+    (fun p hpm => hp p (hperm.mem_iff.1 hpm)) (by rw [hperm.length_eq]; exact Nat.lt_succ_self _)
+  exact h.trans (hperm.map _)
+
+/-- Non-vacuity: six charts with distinct positive areas. -/
+example : ((joined (1/16 : Rat) ⟨⟨0, 0⟩, ⟨1, 1⟩⟩
+    (buildQT 7 (sortDesc [(0, 3), (1, 7), (2, 1), (3, 5), (4, 2), (5, 9)]))).map Prod.fst) = [5, 1, 3, 2, 0, 4] := by
+  decide +kernel
+
 /-- **The automatic atlas covers every triangle exactly once.**  `BuildAutomaticUVMap` decomposes the
 mesh with `MeshToPlaneGraphsLimited` and hands every disc to `handleDisc`, which either appends it
 to the atlas or replaces it by the pieces of `SplitPlaneGraph` (recursively, for every recursion
@@ -442,5 +467,160 @@ theorem mapfn_nearest_point_closest (t : Tri2 K)
 the reported squared distance is 1 (corner B). -/
 example : (triNearest (⟨⟨0, 0⟩, ⟨1, 0⟩, ⟨0, 1⟩⟩ : Tri2 Rat) (atBary2 ⟨⟨0, 0⟩, ⟨1, 0⟩, ⟨0, 1⟩⟩ (-1, 2, 0))).1 = 1 := by
   decide +kernel
+
+/-- **"No triangle contains the query" means the query is outside every triangle.**  If the containment scan of
+`MapFn` finds nothing, every UV triangle of non-zero area gives the query a negative barycentric coordinate
+(the coordinates sum to 1 and reproduce the query) — the hypothesis `hneg` of `mapfn_nearest_point_closest`:
+the bounding-box pre-test of `findContains` never rejects a point with non-negative coordinates. -/
+theorem mapfn_none_means_outside (ts : List (Tri2 K)) (p : V2 K) (h : findContains ts p = none)
+    (t : Tri2 K) (ht : t ∈ ts) (hdet : t.orient ≠ 0) :
+    ((bary2 t p).1 < 0 ∨ (bary2 t p).2.1 < 0 ∨ (bary2 t p).2.2 < 0) ∧
+    (bary2 t p).1 + (bary2 t p).2.1 + (bary2 t p).2.2 = 1 ∧ atBary2 t (bary2 t p) = p :=
+  findContains_none_outside ts p h t ht hdet
+
+/-- **`MapFn` at a point outside the UV triangulation interpolates at the nearest point of the WHOLE
+triangulation.**  All UV triangles have non-zero area, no triangle contains `p`, and `Find` returns triangle
+`i` with coordinates `w`: then no point of any SOLID triangle of the map (coordinates `(α,β,γ) ≥ 0` summing
+to 1) is closer to `p` than the point `atBary2 u w` that `MapFn` maps back to 3-D.  (Combines
+`mapfn_outside_returns_nearest`, `mapfn_none_means_outside` and `mapfn_nearest_point_closest`.) -/
+theorem mapfn_outside_nearest_point_of_atlas (ts : List (Tri2 K)) (p : V2 K) (i : Nat) (w : K × K × K)
+    (hnd : ∀ t ∈ ts, t.orient ≠ 0)
+    (hout : findContains ts p = none) (h : findUV ts p = some (i, w)) :
+    ∃ u, ts[i]? = some u ∧ 0 ≤ w.1 ∧ 0 ≤ w.2.1 ∧ 0 ≤ w.2.2 ∧ w.1 + w.2.1 + w.2.2 = 1 ∧
+      ∀ t ∈ ts, ∀ α β γ : K, 0 ≤ α → 0 ≤ β → 0 ≤ γ → α + β + γ = 1 →
+        dist2 (atBary2 u w) p ≤ dist2 (atBary2 t (α, β, γ)) p := by
+  obtain ⟨u, hu, _, w1, w2, w3, w4, hd, hall⟩ := mapfn_outside_returns_nearest ts p i w hout h
+  refine ⟨u, hu, w1, w2, w3, w4, fun t ht α β γ hα hβ hγ hsum => ?_⟩
+  obtain ⟨hneg, hs, hp⟩ := findContains_none_outside ts p hout t ht (hnd t ht)
+  obtain ⟨e1, e2, e3⟩ := edges_pos_of_orient t (hnd t ht)
+  have key := triNearest_le_solid t e1 e2 e3 (bary2 t p).1 (bary2 t p).2.1 (bary2 t p).2.2 α β γ hs hneg hα hβ hγ hsum
+  rw [show ((bary2 t p).1, (bary2 t p).2.1, (bary2 t p).2.2) = bary2 t p from rfl, hp] at key
+  rw [hd]
+  exact le_trans (hall t ht) key
+
+/-- Non-vacuity: the query (3, 0) is outside both triangles of the earlier example (negative coordinates). -/
+example : findContains [⟨⟨-2, 0⟩, ⟨-1, 0⟩, ⟨-2, 1⟩⟩, ⟨⟨0, 0⟩, ⟨1, 0⟩, ⟨0, 1⟩⟩] (⟨3, 0⟩ : V2 Rat) = none ∧
+    (bary2 (⟨⟨0, 0⟩, ⟨1, 0⟩, ⟨0, 1⟩⟩ : Tri2 Rat) ⟨3, 0⟩).1 < 0 := by
+  decide +kernel
+
+/-! ## `ExtendBoundaryUVs`: the post-processing of the boundary ears
+
+`M3d/Model/ParamExt.lean` models the loop; `math.Sqrt` is the uninterpreted `HasSqrt.sqrt` with the hypothesis
+`SqrtSpec` (the non-negative square root of non-negative numbers; true of `Real.sqrt`). -/
+
+open M3d.GenPrelude in
+/-- **`ExtendBoundaryUVs` moves an ear apex straight away from the opposite edge — it cannot flip the ear,
+whichever way round the parameterisation runs.**  `uv0, uv1, uv2` are the UVs of three consecutive boundary
+vertices that span one triangle (an ear, apex `uv1`), the opposite edge `uv0 uv2` is non-degenerate, and the
+apex lies on the same side of the line through the ORIGIN parallel to the opposite edge as of the opposite edge
+itself (`earCross · originCross > 0`; see `extend_boundary_origin_side`: true at every vertex of a convex
+boundary polygon around the origin, clockwise or counter-clockwise — the documented precondition "centred
+around the origin").  If the loop body stores `q` for the apex (`extendEar = some q`, `maxDist > 0`), then:
+the ear keeps its strict orientation (no flip), its height over the opposite edge is strictly larger than
+before (twice the area grows by at most `maxDist · |uv2 − uv0|`), the foot of the apex on the opposite edge
+does not move, and the apex moves by at most `maxDist`. -/
+theorem extend_boundary_ear_moves_away [HasSqrt K] (hs : SqrtSpec K) (p0 p1 p2 : V3 K) (uv0 uv1 uv2 q : V2 K)
+    (maxDist : K) (hmd : 0 < maxDist) (he : 0 < dot2 (uv2.sub uv0) (uv2.sub uv0))
+    (hside : 0 < earCross uv0 uv1 uv2 * originCross uv0 uv1 uv2)
+    (h : extendEar p0 p1 p2 uv0 uv1 uv2 maxDist = some q) :
+    0 < earCross uv0 uv1 uv2 * earCross uv0 q uv2 ∧
+    |earCross uv0 uv1 uv2| < |earCross uv0 q uv2| ∧
+    |earCross uv0 q uv2| ≤ |earCross uv0 uv1 uv2| + maxDist * norm2 (uv2.sub uv0) ∧
+    dot2 (uv2.sub uv0) (q.sub uv0) = dot2 (uv2.sub uv0) (uv1.sub uv0) ∧
+    dist2 q uv1 ≤ maxDist * maxDist := by
+  obtain ⟨hr, rfl⟩ := extendEar_some p0 p1 p2 uv0 uv1 uv2 maxDist q h
+  have hL : 0 < norm2 (uv2.sub uv0) := by
+    unfold norm2; exact sqrt_pos_of_pos hs _ (by simpa [dot2] using he)
+  obtain ⟨hx0, hx1⟩ := extraDist_bounds uv0 uv2 _ _ maxDist hmd hr (by simpa [segLen2] using hL)
+  obtain ⟨a1, a2, a3, a4⟩ := pushOut_away hs uv0 uv1 uv2 _ (le_of_lt hx0) he hside
+  refine ⟨a1, ?_, ?_, a3, ?_⟩
+  · rw [a2]; linarith [mul_pos hx0 hL]
+  · rw [a2]; linarith [mul_le_mul_of_nonneg_right hx1 (le_of_lt hL)]
+  · rw [a4]; exact mul_le_mul hx1 hx1 (le_of_lt hx0) (le_of_lt hmd)
+
+/-- … the same for any amount `extra ≥ 0`, with the exact values: the height grows by exactly `extra`. -/
+theorem extend_boundary_push_exact [M3d.GenPrelude.HasSqrt K] (hs : SqrtSpec K) (uv0 uv1 uv2 : V2 K) (extra : K)
+    (h0 : 0 ≤ extra) (he : 0 < dot2 (uv2.sub uv0) (uv2.sub uv0))
+    (hside : 0 < earCross uv0 uv1 uv2 * originCross uv0 uv1 uv2) :
+    0 < earCross uv0 uv1 uv2 * earCross uv0 (pushOut uv0 uv1 uv2 extra) uv2 ∧
+    |earCross uv0 (pushOut uv0 uv1 uv2 extra) uv2| = |earCross uv0 uv1 uv2| + extra * norm2 (uv2.sub uv0) ∧
+    dist2 (pushOut uv0 uv1 uv2 extra) uv1 = extra * extra := by
+  obtain ⟨a1, a2, _, a4⟩ := pushOut_away hs uv0 uv1 uv2 extra h0 he hside
+  exact ⟨a1, a2, a4⟩
+
+/-- Non-vacuity over ℝ with `Real.sqrt`: the ear `(1,−1), (2,0), (1,1)` of a clockwise boundary around the
+origin (`earCross = −2`, `originCross = −4`) pushed by `1/2` lands at `(5/2, 0)`: twice the area goes from
+`−2` to `−3`. -/
+example : ∃ _ : M3d.GenPrelude.HasSqrt ℝ, SqrtSpec ℝ ∧
+    0 < earCross (⟨1, -1⟩ : V2 ℝ) ⟨2, 0⟩ ⟨1, 1⟩ * originCross (⟨1, -1⟩ : V2 ℝ) ⟨2, 0⟩ ⟨1, 1⟩ ∧
+    |earCross (⟨1, -1⟩ : V2 ℝ) (pushOut ⟨1, -1⟩ ⟨2, 0⟩ ⟨1, 1⟩ (1 / 2)) ⟨1, 1⟩| = 3 := by
+  refine ⟨⟨Real.sqrt⟩, ?_, ?_⟩
+  · exact fun x hx => ⟨Real.mul_self_sqrt hx, Real.sqrt_nonneg x⟩
+  · let _ : M3d.GenPrelude.HasSqrt ℝ := ⟨Real.sqrt⟩
+    have hs : SqrtSpec ℝ := fun x hx => ⟨Real.mul_self_sqrt hx, Real.sqrt_nonneg x⟩
+    have hside : 0 < earCross (⟨1, -1⟩ : V2 ℝ) ⟨2, 0⟩ ⟨1, 1⟩ * originCross (⟨1, -1⟩ : V2 ℝ) ⟨2, 0⟩ ⟨1, 1⟩ := by
+      norm_num [earCross, originCross]
+    refine ⟨hside, ?_⟩
+    obtain ⟨_, a2, _⟩ := extend_boundary_push_exact hs (⟨1, -1⟩ : V2 ℝ) ⟨2, 0⟩ ⟨1, 1⟩ (1 / 2) (by norm_num)
+      (by norm_num [dot2, V2.sub]) hside
+    rw [a2]
+    have h4 : norm2 ((⟨1, 1⟩ : V2 ℝ).sub ⟨1, -1⟩) = 2 := by
+      show Real.sqrt _ = 2
+      rw [show ((⟨1, 1⟩ : V2 ℝ).sub ⟨1, -1⟩).x * ((⟨1, 1⟩ : V2 ℝ).sub ⟨1, -1⟩).x +
+        ((⟨1, 1⟩ : V2 ℝ).sub ⟨1, -1⟩).y * ((⟨1, 1⟩ : V2 ℝ).sub ⟨1, -1⟩).y = 2 * 2 by norm_num [V2.sub]]
+      exact Real.sqrt_mul_self (by norm_num)
+    rw [h4]
+    norm_num [earCross]
+
+omit [LinearOrder K] [IsStrictOrderedRing K] in
+/-- **Where the origin has to be** for `extend_boundary_ear_moves_away`: with `O` the origin,
+`earCross · originCross = orient(uv0,uv1,uv2) · (orient(uv0,uv1,O) + orient(uv1,uv2,O))`: the turn of the boundary
+at the apex times the position of the origin relative to the two boundary edges at the apex. -/
+theorem extend_boundary_origin_identity (uv0 uv1 uv2 : V2 K) :
+    earCross uv0 uv1 uv2 * originCross uv0 uv1 uv2 =
+      orient uv0 uv1 uv2 * (orient uv0 uv1 ⟨0, 0⟩ + orient uv1 uv2 ⟨0, 0⟩) := by
+  simp only [earCross, originCross, orient]
+  ring
+
+/-- Hence the side condition holds at a convex corner of a boundary polygon that has the origin on the inner
+side of both edges at the corner (strictly of one): for a COUNTER-CLOCKWISE boundary (left turn, origin to the
+left) and, just the same, for a CLOCKWISE one (right turn, origin to the right) — e.g. a V-flipped
+`Floater97` solution or a user-supplied clockwise boundary map. -/
+theorem extend_boundary_origin_side (uv0 uv1 uv2 : V2 K) :
+    (0 < orient uv0 uv1 uv2 → 0 ≤ orient uv0 uv1 ⟨0, 0⟩ → 0 ≤ orient uv1 uv2 ⟨0, 0⟩ →
+      0 < orient uv0 uv1 ⟨0, 0⟩ + orient uv1 uv2 ⟨0, 0⟩ → 0 < earCross uv0 uv1 uv2 * originCross uv0 uv1 uv2) ∧
+    (orient uv0 uv1 uv2 < 0 → orient uv0 uv1 ⟨0, 0⟩ ≤ 0 → orient uv1 uv2 ⟨0, 0⟩ ≤ 0 →
+      orient uv0 uv1 ⟨0, 0⟩ + orient uv1 uv2 ⟨0, 0⟩ < 0 → 0 < earCross uv0 uv1 uv2 * originCross uv0 uv1 uv2) := by
+  rw [extend_boundary_origin_identity]
+  exact ⟨fun h1 _ _ h2 => mul_pos h1 h2, fun h1 _ _ h2 => mul_pos_of_neg_of_neg h1 h2⟩
+
+example : 0 < orient (⟨1, -1⟩ : V2 Rat) ⟨2, 0⟩ ⟨1, 1⟩ ∧ 0 < orient (⟨1, -1⟩ : V2 Rat) ⟨2, 0⟩ ⟨0, 0⟩ ∧
+    0 < orient (⟨2, 0⟩ : V2 Rat) ⟨1, 1⟩ ⟨0, 0⟩ := by decide +kernel
+
+omit [IsStrictOrderedRing K] in
+/-- **`ExtendBoundaryUVs` writes nothing but ear apexes.**  Whatever the mesh, the boundary cycle, the 3-D
+positions and `maxDist`: an entry of `param` whose key is not an ear apex of the boundary cycle — every interior
+vertex, every boundary vertex that is not the apex of an ear, any other key — is the same after the loop. -/
+theorem extend_boundary_moves_only_ears [M3d.GenPrelude.HasSqrt K] (ts : List Tri) (pos : Nat → V3 K) (seq : List Nat)
+    (maxDist : K) (param : AMap (V2 K)) (v : Nat) (hv : v ∉ earApexes ts seq) :
+    (extendBoundary ts pos seq maxDist param).load v = param.load v :=
+  extendBoundary_frame ts pos seq maxDist param v hv
+
+/-- Non-vacuity: the square `(0,1,2), (0,2,3)` with boundary cycle `0,1,2,3` has the ear apexes 1 and 3. -/
+example : earApexes [(0, 1, 2), (0, 2, 3)] [0, 1, 2, 3] = [1, 3] := by decide
+
+/-- **`ExtendBoundaryUVs` commutes with every linear isometry of the UV plane** (rotations about the origin,
+reflections in lines through the origin: matrix `(a b; c d)` with orthonormal columns): extending the
+transformed map gives the transform of the extended map — the function treats a clockwise (V-flipped, mirrored,
+rotated) parameterisation exactly as it treats the counter-clockwise one.  No property of `sqrt` is needed. -/
+theorem extend_boundary_commutes_with_isometries [M3d.GenPrelude.HasSqrt K] (a b c d : K) (hO : Ortho a b c d)
+    (ts : List Tri) (pos : Nat → V3 K) (seq : List Nat) (maxDist : K) (param : AMap (V2 K)) :
+    extendBoundary ts pos seq maxDist (AMap.mapVals (V2.lin a b c d) param) =
+      AMap.mapVals (V2.lin a b c d) (extendBoundary ts pos seq maxDist param) :=
+  extendBoundary_lin hO ts pos seq maxDist param
+
+/-- Non-vacuity: the V flip `(x, y) ↦ (x, −y)` and the rotation by the Pythagorean angle `(3/5, 4/5)`. -/
+example : Ortho (1 : Rat) 0 0 (-1) ∧ Ortho (3 / 5 : Rat) (-4 / 5) (4 / 5) (3 / 5) := by
+  constructor <;> constructor <;> norm_num
 
 end M3d.C18
